@@ -9,26 +9,16 @@ From SigG Require Import GenOrder.
 Import ListNotations.
 Open Scope string_scope.
 
-Record rule := mkRule { r_id : string; r_root : string; r_first : string; r_second : string; r_why : string }.
+(* RBefore: every call of [second] is preceded by a call of [first];
+   RGuard: ... by a call of [first] in the same iteration of the root function's loops (label "@iter") *)
+Inductive rkind := RBefore | RGuard | RNever.   (* RNever: the root's skeleton contains no call of [second] ([first] unused) *)
+Record rule := mkR { r_kind : rkind; r_id : string; r_root : string; r_first : string; r_second : string; r_why : string }.
+Definition mkRule := mkR RBefore.
+Definition mkGuard := mkR RGuard.
+Definition mkNever (id root second why : string) := mkR RNever id root "" second why.
 
-Definition co_rules : list rule :=
-  [ mkRule "C10.meta_entry_registered_before_its_log_is_deleted"
-      "co_segment_writer_metrics__MetricsSegment_rotateSegment"
-      "meta.AddMetricsMetaEntry" "metricsMEntryWalState.wal.DeleteWAL"
-      "forced rotation: the rotated segment is in metricmeta.json before the meta-entry log that could re-create the entry is removed";
-    mkRule "C10.metric_names_flushed_before_their_log_is_deleted"
-      "co_segment_writer_metrics__MetricsSegment_rotateSegment"
-      "ms.FlushMetricNames" "ms.mNameWalState.wal.DeleteWAL"
-      "segment rotation: the metric names file is written before the metric-name log is removed";
-    mkRule "C10.block_flushed_before_its_datapoint_logs_are_deleted"
-      "co_segment_writer_metrics__MetricsBlock_rotateBlock"
-      "mb.flushBlock" "walFd.DeleteWAL"
-      "block rotation: the block's series are on disk before the datapoint logs of the block are removed";
-    mkRule "C11.rotated_segment_registered_before_unrotated_info_is_dropped"
-      "co_segment_writer__SegStore_checkAndRotateColFiles"
-      "metadata.AddSegMetaToMetadata" "CleanupUnrotatedSegment"
-      "hand-over: a searcher finds the segment among the rotated ones before it disappears from the unrotated ones";
-    mkRule "C07.segmeta_line_written_before_unrotated_state_is_dropped"
+Definition c07_rules : list rule :=
+  [ mkRule "C07.segmeta_line_written_before_unrotated_state_is_dropped"
       "co_segment_writer__SegStore_checkAndRotateColFiles"
       "addSegmeta" "CleanupUnrotatedSegment"
       "rotation: the segment's line is in segmeta.json before the writer forgets the segment";
@@ -49,6 +39,85 @@ Definition co_rules : list rule :=
       "WriteRunningSegMeta" "pqResults.FlushPqmr"
       "flush: the persistent-query results of a block are appended after the .sfm that counts the block (PqmrProto)" ].
 
+Definition c10_rules : list rule :=
+  [ mkRule "C10.shared_meta_entry_log_deleted_after_all_rotations_finished"
+      "co_segment_writer_metrics__ForceFlushMetricsBlock"
+      "wg.Wait" "metricsMEntryWalState.wal.DeleteWAL"
+      "graceful shutdown: the meta-entry log (one file for all segments) is removed only after the goroutines that rotate and register every segment have finished";
+    mkNever "C10.segment_rotation_does_not_delete_the_shared_meta_entry_log"
+      "co_segment_writer_metrics__MetricsSegment_rotateSegment"
+      "metricsMEntryWalState.wal.DeleteWAL"
+      "rotating ONE segment never removes the meta-entry log, which may hold the entries of other segments";
+    mkRule "C10.metric_names_flushed_before_their_log_is_deleted"
+      "co_segment_writer_metrics__MetricsSegment_rotateSegment"
+      "ms.FlushMetricNames" "ms.mNameWalState.wal.DeleteWAL"
+      "segment rotation: the metric names file is written before the metric-name log is removed";
+    mkRule "C10.block_flushed_before_its_datapoint_logs_are_deleted"
+      "co_segment_writer_metrics__MetricsBlock_rotateBlock"
+      "mb.flushBlock" "walFd.DeleteWAL"
+      "block rotation: the block's series are on disk before the datapoint logs of the block are removed" ].
+
+Definition c11_rules : list rule :=
+  [ mkRule "C11.rotated_segment_registered_before_unrotated_info_is_dropped"
+      "co_segment_writer__SegStore_checkAndRotateColFiles"
+      "metadata.AddSegMetaToMetadata" "CleanupUnrotatedSegment"
+      "hand-over: a searcher finds the segment among the rotated ones before it disappears from the unrotated ones" ].
+
+Definition c13_rules : list rule :=
+  [ mkGuard "C13.delete_index_checks_ownership_before_deleting_segments"
+      "co_es_writer__deleteIndex"
+      "vtable.IsVirtualTablePresent" "writer.DeleteSegmentsForIndex"
+      "delete-index: each expanded name is an index of the requesting org before segments of that name are deleted";
+    mkGuard "C13.delete_index_checks_ownership_before_dropping_segstore"
+      "co_es_writer__deleteIndex"
+      "vtable.IsVirtualTablePresent" "writer.DeleteVirtualTableSegStore"
+      "delete-index: ... before the open segstore of that name is dropped";
+    mkGuard "C13.delete_index_checks_ownership_before_unregistering"
+      "co_es_writer__deleteIndex"
+      "vtable.IsVirtualTablePresent" "vtable.DeleteVirtualTable"
+      "delete-index: ... before the name is removed from the virtual-table list" ].
+
+Definition c19_rules : list rule :=
+  [ mkRule "C19.index_name_checked_before_ingest"
+      "co_es_writer__ProcessIndexRequestPle"
+      "utils.IsSafePathComponent" "writer.AddEntryToInMemBuf"
+      "every ingest protocol: the index name is a safe path component before the writer creates suffix files and segment directories from it";
+    mkGuard "C19.delete_index_checks_each_name"
+      "co_es_writer__deleteIndex"
+      "utils.IsSafePathComponent" "writer.DeleteSegmentsForIndex"
+      "delete-index: each expanded name is a safe path component before its directory is removed";
+    mkRule "C19.lookup_upload_name_checked_before_openfile"
+      "co_lookups__UploadLookupFile"
+      "utils.IsSafePathComponent" "os.OpenFile"
+      "lookup upload: the file name is checked before the file is created";
+    mkRule "C19.lookup_upload_name_checked_before_create"
+      "co_lookups__UploadLookupFile"
+      "utils.IsSafePathComponent" "os.Create"
+      "lookup upload: the file name is checked before the file is created";
+    mkRule "C19.inputlookup_name_checked_before_open"
+      "co_segment_aggregations__PerformInputLookup"
+      "utils.IsSafePathComponent" "os.Open"
+      "inputlookup (generate-events path): the file name is checked before the file is opened";
+    mkRule "C19.inputlookup_processor_name_checked_before_open"
+      "co_segment_query_processor__inputlookupProcessor_Process"
+      "utils.IsSafePathComponent" "os.Open"
+      "inputlookup (processor path): the file name is checked before the file is opened";
+    mkRule "C19.tag_key_checked_before_tags_tree_file"
+      "co_segment_writer_metrics__TagTree_flushSingleTagsTree"
+      "utils.IsSafePathComponent" "os.OpenFile"
+      "tags tree flush: the tag key is checked before it becomes a file name";
+    mkRule "C19.mapping_name_checked_before_file"
+      "co_virtualtable__AddMapping"
+      "utils.IsSafePathComponent" "os.OpenFile"
+      "index mapping: the index name is checked before <name>.json is written";
+    mkRule "C19.virtual_table_name_checked_before_file"
+      "co_virtualtable__AddVirtualTable"
+      "utils.IsSafePathComponent" "os.OpenFile"
+      "virtual table: the name is checked before it is appended to the table file" ].
+
+Definition co_rules : list rule := c07_rules ++ c10_rules ++ c11_rules ++ c13_rules ++ c19_rules.
+
+
 Fixpoint label_id (ls : list (N * string * N)) (name : string) : option N :=
   match ls with
   | [] => None
@@ -64,10 +133,30 @@ Definition co_fuel : nat := 6.
 
 (* what is wrong with a rule on the current skeletons (empty = the obligation holds) *)
 Inductive problem :=
-| PNoRoot | PNoLabel (which : string) | PNotCalled (which : string) | PSameLabel
+| PNoRoot | PNoLabel (which : string) | PNotCalled (which : string) | PSameLabel | PNoIterLabel
 | PObjections (n : nat).
 
+Definition iter_label : option N := label_id co_labels "@iter".
+
+Definition rule_step (k : rkind) (a b : N) : option (N -> ev -> option N) :=
+  match k with
+  | RBefore => Some (before_step a b)
+  | RGuard => match iter_label with
+              | Some it => if N.eqb a it || N.eqb b it then None else Some (guard_step a b it)
+              | None => None
+              end
+  | RNever => None
+  end.
+
 Definition check_rule (r : rule) : list problem :=
+  match r_kind r with
+  | RNever =>
+    match root_stm co_all (r_root r), label_id co_labels (r_second r) with
+    | None, _ => [PNoRoot]
+    | _, None => [PNoLabel (r_second r)]
+    | Some s, Some b => if mentions b s then [PObjections 1] else []
+    end
+  | _ =>
   match root_stm co_all (r_root r), label_id co_labels (r_first r), label_id co_labels (r_second r) with
   | None, _, _ => [PNoRoot]
   | _, None, _ => [PNoLabel (r_first r)]
@@ -76,7 +165,11 @@ Definition check_rule (r : rule) : list problem :=
       (if N.eqb a b then [PSameLabel] else []) ++
       (if mentions a s then [] else [PNotCalled (r_first r)]) ++
       (if mentions b s then [] else [PNotCalled (r_second r)]) ++
-      (match oanalyse (before_step a b) co_fuel s with [] => [] | l => [PObjections (List.length l)] end)
+      (match rule_step (r_kind r) a b with
+       | None => [PNoIterLabel]
+       | Some st => match oanalyse st co_fuel s with [] => [] | l => [PObjections (List.length l)] end
+       end)
+  end
   end.
 
 Definition co_report : list (string * list problem) :=
@@ -86,10 +179,20 @@ Definition co_report : list (string * list problem) :=
 Definition co_all_ok : bool := match co_report with [] => true | _ => false end.
 
 (* what a checked rule says: the root and both labels exist in the regenerated skeletons, both calls occur in the
-   root's skeleton, and in EVERY trace of the skeleton every call of the second is preceded by a call of the first *)
+   root's skeleton, and in EVERY trace of the skeleton every call of the second is preceded by a call of the first
+   (RGuard: with no iteration marker of the root's loops in between) *)
 Definition rule_holds (r : rule) : Prop :=
+  match r_kind r with
+  | RNever =>
+    exists s b, root_stm co_all (r_root r) = Some s /\ label_id co_labels (r_second r) = Some b /\
+      forall t o, exec s t o -> ~ In (KCall, b) t
+  | k =>
   exists s a b,
     root_stm co_all (r_root r) = Some s /\ label_id co_labels (r_first r) = Some a /\
     label_id co_labels (r_second r) = Some b /\
     mentions a s = true /\ mentions b s = true /\
-    forall t o, exec s t o -> preceded a b t.
+    match k with
+    | RGuard => exists it, iter_label = Some it /\ forall t o, exec s t o -> guarded a b it t
+    | _ => forall t o, exec s t o -> preceded a b t
+    end
+  end.
